@@ -149,6 +149,27 @@ def grammar_texts():
                 out.append(f"DURATION text {text!r} decodes wrongly")
         except Exception as e:  # noqa
             out.append(f"DURATION text {text!r} raises {type(e).__name__}")
+    # the combined decoder must classify by SHAPE, not by length: durations and date / date-time texts of every length 2 .. 24
+    seen_len = set()
+    for sign in ("", "+", "-"):
+        for d in (None, 1, 12, 123, 1234):
+            for h, m, sec in ((None, None, None), (1, None, None), (10, 30, None), (10, 30, 15), (None, 5, None), (None, None, 7), (100000, None, None),
+                              (None, None, 100000000000), (1, 2, 3), (None, 30, 15)):
+                if d is None and h is None and m is None and sec is None:
+                    continue
+                text = sign + "P" + (f"{d}D" if d is not None else "")
+                if (h, m, sec) != (None, None, None):
+                    text += "T" + (f"{h}H" if h is not None else "") + (f"{m}M" if m is not None else "") + (f"{sec}S" if sec is not None else "")
+                want = _td(days=d or 0, hours=h or 0, minutes=m or 0, seconds=sec or 0) * (-1 if sign == "-" else 1)
+                seen_len.add(len(text))
+                for label, dec, wrap in (("DURATION", prop.vDDDTypes.from_ical, lambda x: x), ("PERIOD", prop.vDDDTypes.from_ical, lambda x: x[1])):
+                    t2 = text if label == "DURATION" else "19970101T180000Z/" + text
+                    try:
+                        got = wrap(dec(t2))
+                        if got != want:
+                            out.append(f"{label} text {t2!r} ({len(text)} characters) decodes to {got!r}, the RFC says {want!r}")
+                    except Exception as e:  # noqa
+                        out.append(f"{label} text {t2!r} (duration of {len(text)} characters) raises {type(e).__name__}: {e}")
     for text, want in (("37.386013;-122.082932", (37.386013, -122.082932)),):
         if prop.vGeo.from_ical(text) != want:
             out.append("GEO text decodes wrongly")
